@@ -9,8 +9,11 @@ import build  # noqa: E402
 import common  # noqa: E402
 
 failed = False
+only = [a.lower() for a in sys.argv[1:]]
 for f in sorted(glob.glob(os.path.join(os.path.dirname(os.path.abspath(__file__)), "c[0-9][0-9].py"))):
     name = os.path.basename(f)[:-3]
+    if only and name not in only:
+        continue
     try:
         prop = importlib.import_module(name).PROP()
         for rel, text in prop.translate().items():
